@@ -156,3 +156,10 @@ def rules(ctx):
     keys(ctx)
     names(ctx)
     c10.par_convert(ctx, "C14.par-convert")
+    # writing a program must not change it (the reloaded program is compared with the original, and remote engines
+    # serialise the user's program on every run)
+    from . import common_alias as CA
+    fs = [f for rel in ("io/blackbird_io.py", "io/xir_io.py", "io/utils.py", "io/__init__.py") if rel in ctx.tree.modules
+          for f in ctx.tree.module(rel).functions.values()]
+    n = CA.attr_alias_write(ctx, "C14.alias", fs, "Scope: the io writers / readers.")
+    ctx.floor("C14.alias", 1)
